@@ -120,11 +120,11 @@ def run_c24(ctx, replay):
     binary, _ = build(ctx)
     mc = None
     tcfg = TRACE_CFG + "CONSTANT MaxObjs = 1000\n"
-    nobj = 6 if ctx.thorough() else 5
+    nobj = 7 if ctx.thorough() else 6
     if replay:
         scheds = [json.load(open(replay))["schedule"]]
     else:
-        mc = vlib.tlc(ctx, "AgentIPC", "CONSTANT MaxObjs = %d\nINIT Init\nNEXT Next\nINVARIANT C24\nINVARIANT Agree\nVIEW View\n" % nobj, workers=4)
+        mc = vlib.tlc(ctx, "AgentIPC", "CONSTANT MaxObjs = %d\nINIT Init\nNEXT Next\nINVARIANT C24\nINVARIANT Agree\nVIEW View\n" % nobj, workers=8 if ctx.thorough() else 4, timeout=3000)
         if mc.violated:
             raise vlib.Inconclusive("the model violates its own monitor %s -- spec error, no verdict" % mc.violated)
         num, depth = (4000, 40) if ctx.thorough() else (450, 36)
